@@ -144,34 +144,75 @@ def shape_chain(rng, eps=None):
     return sh
 
 
-def shape_dyn_duration(rng):
-    """the duration bounds of A read a numeric fluent that B assigns; B before A's start or after it"""
+# every constant / non-constant combination of the two duration bounds x which bound the other action changes
+DYN_COMBOS = [(kind, target, scenario)
+              for kind, targets in (("cf", ["upper"]), ("fc", ["lower"]), ("fg", ["lower", "upper"]), ("ff", ["both"]))
+              for target in targets for scenario in ("before", "after")]
+DYN_OPEN = [(False, False), (True, False), (False, True), (True, True)]
+
+
+def shape_dyn_duration(rng, combo=None, openness=None):
+    """The duration of A has a bound that reads a numeric fluent and B assigns that fluent.
+    kind: cf = [const, fluent], fc = [fluent, const], fg = [fluent, other fluent], ff = fixed duration = fluent;
+    target: which bound B changes; openness: (left open, right open) (ignored for ff).
+    scenario 'before': B comes first and the chosen duration is only legal with the NEW value of the bound;
+    scenario 'after': A starts under the old value (its start is held behind an instantaneous C by a start condition,
+    so that the earliest schedule cannot hide a lost ordering behind simultaneity) and B, later, sets a value under which
+    the chosen duration would be illegal.  Losing the order between B and A's start makes the plan converted back invalid."""
     from unified_planning.model.timing import EndTiming, StartTiming
+    kind, target, scenario = combo if combo is not None else rng.choice(DYN_COMBOS)
+    lopen, ropen = openness if openness is not None else rng.choice(DYN_OPEN)
     sh = Shape("dyn-duration")
-    n = sh.int_fluent("n", rng.randint(1, 2))
+    em = sh.em
+    L0, U0 = 2, 4
+    lo_f = sh.int_fluent("lo", L0) if kind in ("fc", "fg") else None
+    up_f = sh.int_fluent("up", U0) if kind in ("cf", "fg") else None
+    n_f = sh.int_fluent("n", L0) if kind == "ff" else None
     h = sh.bool_fluent("h", False)
     a = sh.durative("A")
-    r = rng.random()
-    if r < 0.4:
-        a.set_fixed_duration(n)
-    elif r < 0.7:
-        a.set_closed_duration_interval(n, sh.em.Plus(n, 1))
+    if kind == "ff":
+        a.set_fixed_duration(n_f)
     else:
-        a.set_left_open_duration_interval(sh.em.Minus(n, 1), n)
+        lower = lo_f() if lo_f is not None else em.Int(L0)
+        upper = up_f() if up_f is not None else em.Int(U0)
+        setter = {(False, False): a.set_closed_duration_interval, (True, False): a.set_left_open_duration_interval,
+                  (False, True): a.set_right_open_duration_interval, (True, True): a.set_open_duration_interval}[(lopen, ropen)]
+        setter(lower, upper)
     if rng.random() < 0.5:
         a.add_effect(EndTiming(), h, True)
     else:
         a.add_effect(StartTiming(1), h, True)
     b = sh.instantaneous("B")
-    newv = rng.randint(3, 5)
-    b.add_effect(n, newv)
-    init = sh.problem.initial_value(n()).constant_value()
-    if rng.random() < 0.5:
-        sh.step(rng.choice([0, 1]), b)                   # B first: A runs with the new bound
-        sh.step(rng.choice([2, 3]), a, newv)
+    if scenario == "before":
+        if kind == "ff":
+            b.add_effect(n_f, 6)
+            d = F(6)
+        elif target == "upper":
+            b.add_effect(up_f, 7)                      # old upper bound 4 < d = 6 < new upper bound 7
+            d = F(6)
+        else:
+            b.add_effect(lo_f, 0)                      # new lower bound 0 < d = 1 < old lower bound 2
+            d = F(1)
+        tb = rng.choice([0, 1])
+        sh.step(tb, b)
+        sh.step(tb + rng.choice([1, 2]), a, d)
     else:
-        sh.step(rng.choice([0, 1]), a, init)             # A first with the old bound, B later
-        sh.step(init + rng.choice([2, 3]), b)
+        c = sh.instantaneous("C")
+        go = sh.bool_fluent("go", False)
+        c.add_effect(go, True)
+        a.add_condition(interval(StartTiming(), StartTiming()), go)
+        if kind == "ff":
+            b.add_effect(n_f, 1)
+            d = F(L0)
+        elif target == "upper":
+            b.add_effect(up_f, 1)                      # d = 3 would exceed the new upper bound 1
+            d = F(3)
+        else:
+            b.add_effect(lo_f, 5)                      # d = 3 would be below the new lower bound 5
+            d = F(3)
+        sh.step(0, c)
+        sh.step(1, a, d)
+        sh.step(1 + rng.choice([1, 2, 5]), b)          # after A's start: during A or after its end
     sh.problem.add_goal(h)
     return sh
 
